@@ -117,7 +117,7 @@ Proof.
     + unfold onepcm, hasm, F in *. rd. auto.
   - cbn [stepr] in H. unfold step_rb_send in H. chks H. okinv H. unfold onepcm, hasm, F in *. rd. auto.
   - destruct (ctsd_acct _ _ _ _ _ _ T0 H) as [_ _ _ _ _ A].
-    { intros m E. exfalso. eapply (o_nolock _ _ O); eauto. }
+    { intros _ m E. exfalso. eapply (o_nolock _ _ O); eauto. }
     unfold onepcm, hasm, F in *. rewrite (A FHasm), (A FTried1), (A FFb1), (A FStFb) by reflexivity. auto.
   - exfalso. cbn [stepr] in H. unfold step_told in H. chks H. b2p. unfold F in Ht. congruence.
 Qed.
